@@ -67,3 +67,10 @@ TEXT.update({
         'ref': 'DESIGN.md section 6 C17', 'note': _NOTE_COMMON + ' SimFS is a model of open/write/close/replace/remove on one virtual mount.',
         'technique': 'deterministic simulation with fault injection: SimFS (in-memory file system with injected errors, short writes, default-encoding emulation), crash points = every node failing validation in turn + async exceptions at function entries (sys.monitoring), real-locale sub-interpreters'},
 })
+
+TEXT.update({
+    'C09': {
+        'level': 'Pipeline per run: writer (the library, or a foreign-writer stub that walks the reference model and uses every attribute form of the schema; its documents were cross-validated with xmllint during development) -> SimFS -> storage faults on the stored bytes (truncate, bit flip, zeroed / duplicated / swapped sectors, token rot, re-encoding, default-encoding change) -> parse_musicxml -> to_string. Fault-free and corrupting configurations are separate. Oracle: infoset of the stored bytes (xml.etree) vs infoset of the re-serialised tree.',
+        'ref': 'DESIGN.md section 6 C09', 'note': _NOTE_COMMON + ' The valid-file half covers only documents the model generates (it cannot vouch for arbitrary real-world exports).',
+        'technique': 'deterministic simulation with fault injection on the read seam: SimFS stored-byte corruption between write and read, foreign-writer stub, infoset refinement check'},
+})
